@@ -34,6 +34,9 @@ type Builder struct {
 type stackEntry struct {
 	nfaID nfa.StateID
 	slots uint32 // slot mask accumulated along epsilon path
+	// endOnly is set when the path went through an end-of-text assertion:
+	// a match reached this way only counts at the end of the input.
+	endOnly bool
 }
 
 // Build attempts to build a one-pass DFA from the given NFA.
@@ -165,11 +168,14 @@ func (b *Builder) epsilonClosureOnePass(root nfa.StateID) ([]closureEntry, bool,
 	b.stack = b.stack[:0]
 
 	// Start DFS from root
-	if err := b.stackPush(root, 0); err != nil {
+	if err := b.stackPush(root, 0, false); err != nil {
 		return nil, false, err
 	}
 
 	var closure []closureEntry
+	// matchWins is set once an unconditional match was met: everything the
+	// DFS visits afterwards has lower priority than that match.
+	matchWins := false
 
 	for len(b.stack) > 0 {
 		// Pop from stack
@@ -178,6 +184,7 @@ func (b *Builder) epsilonClosureOnePass(root nfa.StateID) ([]closureEntry, bool,
 
 		nfaID := entry.nfaID
 		slots := entry.slots
+		endOnly := entry.endOnly
 
 		// Save this entry with accumulated slots
 		closure = append(closure, closureEntry{nfaID, slots})
@@ -197,21 +204,35 @@ func (b *Builder) epsilonClosureOnePass(root nfa.StateID) ([]closureEntry, bool,
 			// Save the slots accumulated to reach match state
 			// These are the capture END positions
 			b.matchMask = slots
+			if !endOnly {
+				matchWins = true
+			}
+
+		case nfa.StateByteRange, nfa.StateSparse:
+			// A byte transition with lower priority than a match that holds at
+			// any position: leftmost-first semantics stop at that match
+			// ((foo|foobar) on "foobar" ends after "foo"), but this automaton
+			// keeps consuming and reports the later match. Not one-pass here.
+			if matchWins {
+				return nil, false, ErrNotOnePass
+			}
 
 		case nfa.StateSplit:
-			// Follow both epsilon paths
+			// Follow both epsilon paths; the left (preferred) branch is pushed
+			// last so that it is explored first: the DFS visits the closure in
+			// priority order.
 			left, right := state.Split()
-			if err := b.stackPush(left, slots); err != nil {
+			if err := b.stackPush(right, slots, endOnly); err != nil {
 				return nil, false, err
 			}
-			if err := b.stackPush(right, slots); err != nil {
+			if err := b.stackPush(left, slots, endOnly); err != nil {
 				return nil, false, err
 			}
 
 		case nfa.StateEpsilon:
 			// Follow epsilon transition
 			next := state.Epsilon()
-			if err := b.stackPush(next, slots); err != nil {
+			if err := b.stackPush(next, slots, endOnly); err != nil {
 				return nil, false, err
 			}
 
@@ -225,7 +246,7 @@ func (b *Builder) epsilonClosureOnePass(root nfa.StateID) ([]closureEntry, bool,
 			if slotIdx < 32 {
 				slots |= (1 << slotIdx)
 			}
-			if err := b.stackPush(next, slots); err != nil {
+			if err := b.stackPush(next, slots, endOnly); err != nil {
 				return nil, false, err
 			}
 
@@ -247,8 +268,11 @@ func (b *Builder) epsilonClosureOnePass(root nfa.StateID) ([]closureEntry, bool,
 					return nil, false, ErrNotOnePass
 				}
 			}
+			if look == nfa.LookEndText {
+				endOnly = true
+			}
 			if next != nfa.InvalidState {
-				if err := b.stackPush(next, slots); err != nil {
+				if err := b.stackPush(next, slots, endOnly); err != nil {
 					return nil, false, err
 				}
 			}
@@ -263,7 +287,7 @@ func (b *Builder) epsilonClosureOnePass(root nfa.StateID) ([]closureEntry, bool,
 
 // stackPush adds an NFA state to the DFS stack.
 // Returns error if state already visited (indicates non-one-pass).
-func (b *Builder) stackPush(nfaID nfa.StateID, slots uint32) error {
+func (b *Builder) stackPush(nfaID nfa.StateID, slots uint32, endOnly bool) error {
 	// Check if already visited via epsilon path
 	if b.seen.Contains(uint32(nfaID)) {
 		// Multiple epsilon paths to same state = NOT one-pass
@@ -271,7 +295,7 @@ func (b *Builder) stackPush(nfaID nfa.StateID, slots uint32) error {
 	}
 
 	b.seen.Insert(uint32(nfaID))
-	b.stack = append(b.stack, stackEntry{nfaID, slots})
+	b.stack = append(b.stack, stackEntry{nfaID, slots, endOnly})
 	return nil
 }
 
